@@ -9,7 +9,8 @@ Inductive exn :=
 | ExIntTooLong     (* int() of more than 4300 digits *)
 | ExAssert         (* an assert statement fails *)
 | ExIndex          (* string index out of range *)
-| ExUnsupported.   (* outside the modelled subset (pattern syntax); the case is skipped *)
+| ExUnsupported    (* outside the modelled subset (pattern syntax); the case is skipped *)
+| ExFilter.        (* a content filter's own pattern does not match the text its block pattern matched *)
 
 Inductive Res (A : Type) := Ok (a : A) | Raise (e : exn) | Fuel.
 Arguments Ok {A} a.
